@@ -138,6 +138,14 @@ func (mw *Middleware) Wrap(next dnsserver.Handler) (wrapped dnsserver.Handler) {
 
 		remoteIP := raddr.Addr()
 
+		// Check the global access before anything else, since it needs nothing
+		// but the request itself, while the device lookup below can create an
+		// automatic device through the backend and the location lookup can
+		// report errors, and globally blocked clients must leave no trace.
+		if mw.isBlockedGlobally(ctx, req, remoteIP) {
+			return nil
+		}
+
 		// Do not respond to a malformed EDNS Client Subnet option until the
 		// access checks have passed, since blocked clients must not receive
 		// any response.
@@ -148,11 +156,11 @@ func (mw *Middleware) Wrap(next dnsserver.Handler) (wrapped dnsserver.Handler) {
 
 		ri.Location, ri.ECS = loc, ecs
 
-		// Check the access before handling the device result, since a
+		// Check the profile access before handling the device result, since a
 		// device-finder error is returned to the server, which responds with a
 		// SERVFAIL, and blocked clients must not receive any response.  There
 		// is no profile in that case, so only the global access applies.
-		if mw.isBlockedByAccess(ctx, ri, req, raddr) {
+		if mw.isBlockedByProfile(ctx, ri, req, raddr) {
 			return nil
 		}
 
